@@ -11,14 +11,14 @@ from .c01 import store, stored_codes, small_formats
 PROPERTY = 'C03'
 RULE = ("Under overflow='wrap': stored code must satisfy lo<=code<=hi AND code == ROUND(x) (mod 2^n_word) (two independent conditions; the model's OVERFLOW is not used); "
         "metamorphic: storing v+j*2^(n_word-n_frac), j in -3..3, stores the same code; register: add/sub/mul of two wrap operands into a wrap out_like of n_word bits "
-        "equals (ka op kb) mod 2^n_word, for n_word<=52 and 64..256. Generated: exhaustive quarter-LSB grid over 3x range for n_word<=6; Hypothesis formats up to 52 bits with bases "
+        "equals (ka op kb) mod 2^n_word, for n_word<=52 and 64..256; register-mixed: operands of independent formats (n_word<=52) delivered through out_like / out / numpy out= / call / config.op_out into a wrap register of a third format (n_word<=52 or 64..256, usually fewer fraction bits than the exact result, any rounding mode): code == ROUND(exact*2^n_frac) (mod 2^n_word). Generated: exhaustive quarter-LSB grid over 3x range for n_word<=6; Hypothesis formats up to 52 bits with bases "
         "at multiples of 2^n_word +- small on both sides; n_word 64..256 with Python-int inputs up to 4*n_word bits (raw and integer-value mode; value mode with n_frac in {0,1,3,n_word//2,-1,-4,-8}, negative n_frac rounding exactly). "
         "Non-trivial = ROUND(x) outside [lo,hi]; distinct = distinct (format, rounding, route, input).")
 ASSUMPTIONS = ['core-domain inputs are exact doubles; wide formats use Python-int inputs only (float inputs into >=64-bit words are outside the statement)',
                'ROUND of the reference model is trusted (cross-checked relationally by C05)']
 EXHAUSTIVE = False    # the whole quantifier is not enumerated; complete sub-domains are listed in EXHAUSTIVE_SUBDOMAINS
 EXHAUSTIVE_SUBDOMAINS = {'quick': ['quarter-LSB grid over 3x range, n_word<=6, all n_frac, 5 roundings, wrap'], 'thorough': ['same, n_word<=7']}
-REQUIRED_CLASSES = {'wrapped': 500, 'wide': 300, 'wide:nfrac<0': 100, 'shift-invariance': 300, 'register': 300, 'resign': 500}
+REQUIRED_CLASSES = {'register-mixed:exact>53bits-coarser-target': 500, 'wrapped': 500, 'wide': 300, 'wide:nfrac<0': 100, 'shift-invariance': 300, 'register': 300, 'resign': 500}
 
 
 def wrap_ok(code, r, fmt):
@@ -192,6 +192,52 @@ def check_register(ctx, case):
             return
 
 
+def check_register_mixed(ctx, case):
+    """(a op b) of operands in their own formats delivered into a wrap register of a third format (usually with fewer
+    fraction bits than the exact result): the code is congruent to ROUND(exact * 2^n_frac) modulo 2^n_word."""
+    fa, fb, fd = tuple(case['fa']), tuple(case['fb']), tuple(case['fd'])
+    ka, kb = int(case['ka']), int(case['kb'])
+    op, rounding = case['op'], case['rounding']
+    import fxpmath
+    F = C.Fxp()
+    ctx.ev()
+    va, vb = M.value_of(ka, fa[2]), M.value_of(kb, fb[2])
+    v = va * vb if op == 'mul' else va + vb if op == 'add' else va - vb
+    want_r = M.ROUND(v * M.pow2(fd[2]), rounding)
+    exact_f = fa[2] + fb[2] if op == 'mul' else max(fa[2], fb[2])
+    sig = 'register-mixed/%s/%s/%s' % (op, 'wide' if fd[1] >= 64 else 'core', 'coarser' if fd[2] < exact_f else 'finer-or-equal')
+
+    def do():
+        a = F(ka, fa[0], fa[1], fa[2], raw=True)
+        b = F(kb, fb[0], fb[1], fb[2], raw=True)
+        mkreg = lambda: F(None, fd[0], fd[1], fd[2], overflow='wrap', rounding=rounding)
+        fn = getattr(fxpmath, op)
+        npf = {'add': np.add, 'sub': np.subtract, 'mul': np.multiply}[op]
+        z1 = fn(a, b, out_like=mkreg())
+        z2 = fn(a, b, out=mkreg())
+        z3 = npf(a, b, out=mkreg())
+        z4 = mkreg()(fn(a, b))
+        ac = a.deepcopy()
+        ac.config.op_out = mkreg()
+        z5 = (ac + b) if op == 'add' else (ac - b) if op == 'sub' else (ac * b)
+        return z1, z2, z3, z4, z5
+    ok, res = ctx.guard(case, do, sig_prefix=sig + '/')
+    if not ok:
+        return
+    neg_unsigned = op == 'sub' and not fa[0] and not fb[0] and v < 0
+    for name, z in zip(('out_like', 'out', 'numpy-out', 'store-call', 'config-out'), res):
+        if name == 'store-call' and neg_unsigned:
+            continue        # the optimally sized intermediate of two unsigned operands is unsigned: it clamps at 0 (C07)
+        try:
+            k = C.codes(z)
+        except ValueError as e:
+            ctx.fail('%s/%s/non-integer-code' % (sig, name), case, {'error': str(e)})
+            return
+        if C.fmt_of(z) != (bool(fd[0]), fd[1], fd[2]) or not wrap_ok(k, want_r, fd):
+            ctx.fail('%s/%s/congruence' % (sig, name), case, {'rounded': str(want_r), 'want_mod': str(want_r % (1 << fd[1])), 'code': str(k), 'fmt': C.fmt_of(z)})
+            return
+
+
 def check_resign(ctx, case):
     """A wrap register re-interpreted in place (only the signedness, or the word, changes): same bits modulo 2^n_word."""
     fmt = tuple(case['fmt'])
@@ -231,7 +277,7 @@ def check_resign(ctx, case):
             return
 
 
-CHECKS = {'grid': check_grid, 'wrap': check_wrap, 'wide': check_wide, 'register': check_register, 'resign': check_resign}
+CHECKS = {'grid': check_grid, 'wrap': check_wrap, 'wide': check_wide, 'register': check_register, 'register-mixed': check_register_mixed, 'resign': check_resign}
 
 
 def replay(ctx, case):
@@ -360,6 +406,36 @@ def body_register(ctx, case):
 
 
 @st.composite
+def st_register_mixed_case(draw):
+    fa = draw(C.st_fmt(max_w=52, min_w=2, f_lo=0, f_hi_extra=0))
+    fb = draw(C.st_fmt(max_w=52, min_w=2, f_lo=0, f_hi_extra=0))
+    op = draw(st.sampled_from(['add', 'sub', 'mul', 'mul']))
+    signed = fa[0] or fb[0]
+    exact_f = fa[2] + fb[2] if op == 'mul' else max(fa[2], fb[2])
+    wide = draw(st.integers(0, 3)) == 0
+    wd = draw(st.sampled_from(WIDE_W)) if wide else draw(C.st_word(52, 2))
+    # the register usually keeps fewer fraction bits than the exact result (a Qm.n multiplier keeps n of the 2n bits)
+    fd = draw(st.one_of(st.sampled_from(sorted({max(exact_f // 2, 0), max(exact_f - 1, 0), fa[2], min(fa[2], fb[2]), 0})), st.integers(0, max(exact_f, 1))))
+    fd = min(fd, wd + 8)
+    sd = signed or draw(st.booleans())       # an unsigned target cannot take a signed result (rejected by the library)
+    return {'check': 'register-mixed', 'fa': list(fa), 'fb': list(fb), 'fd': [sd, wd, fd], 'op': op, 'rounding': draw(st.sampled_from(C.ROUNDINGS)),
+            'ka': draw(C.st_code(fa)), 'kb': draw(C.st_code(fb))}
+
+
+def body_register_mixed(ctx, case):
+    fa, fb, fd = case['fa'], case['fb'], case['fd']
+    bits = fa[1] + fb[1] if case['op'] == 'mul' else max(fa[1] - fa[2], fb[1] - fb[2]) + max(fa[2], fb[2]) + 1
+    exact_f = fa[2] + fb[2] if case['op'] == 'mul' else max(fa[2], fb[2])
+    ctx.cls('register-mixed')
+    nt = bits > 53 and fd[2] < exact_f
+    if nt:
+        ctx.cls('register-mixed:exact>53bits-coarser-target')
+        ctx.nontrivial(('regmix', repr(sorted((k, repr(v)) for k, v in case.items()))))
+    ctx.sample(case, nt)
+    check_register_mixed(ctx, case)
+
+
+@st.composite
 def st_resign_case(draw):
     wide = draw(st.integers(0, 3)) == 0
     w = draw(st.sampled_from(WIDE_W)) if wide else draw(C.st_word(52, 1))
@@ -386,7 +462,7 @@ def body_resign(ctx, case):
 
 def task_hyp(ctx, which, n):
     stg, body = {'wrap': (st_wrap_case, body_wrap), 'wide': (st_wide_case, body_wide), 'register': (st_register_case, body_register),
-                 'resign': (st_resign_case, body_resign)}[which]
+                 'register-mixed': (st_register_mixed_case, body_register_mixed), 'resign': (st_resign_case, body_resign)}[which]
     run_given(ctx, stg(), body, n, ctx.task_seed)
 
 
@@ -402,6 +478,8 @@ def tasks(tier, scale=1.0):
         out.append(('hyp-wide-%d' % i, 'task_hyp', {'which': 'wide', 'n': nh}))
     for i in range(4):
         out.append(('hyp-register-%d' % i, 'task_hyp', {'which': 'register', 'n': nh // 2}))
+    for i in range(4):
+        out.append(('hyp-register-mixed-%d' % i, 'task_hyp', {'which': 'register-mixed', 'n': nh // 2}))
     for i in range(2):
         out.append(('hyp-resign-%d' % i, 'task_hyp', {'which': 'resign', 'n': nh}))
     return out
